@@ -155,6 +155,23 @@ def session(arg):
             b = p.before
             out['pending_seen'] = (b if isinstance(b, str) else b.decode('latin-1'))
 
+        # hand-over inside a character: the child's output ends in the middle of a multi-byte character, expect() consumes what is
+        # complete, interact() takes over the stream with the rest of the character still to come
+        if case.get('handover'):
+            part1, word = case['handover']
+            os.write(ctl, b'S ' + part1.encode() + b'\n')
+            wait(lambda: report()['wrote'] >= len(bytes.fromhex(part1)), 2.0)
+            try:
+                p.expect_exact(word, timeout=2)
+            except Exception as e:      # noqa
+                out['handover_error'] = type(e).__name__
+            for _ in range(20):
+                try:
+                    p.read_nonblocking(100, 0.02)       # make sure the cut byte has reached the spawn's decoder
+                except TIMEOUT:
+                    break
+            out['pending_seen'] = p.buffer if isinstance(p.buffer, str) else p.buffer.decode('latin-1')
+
         def drain():
             while not stop.is_set():
                 r, _, _ = select.select([om], [], [], 0.02)
@@ -383,6 +400,10 @@ def oracle(case, out):
         return ('interact/input-mismatch', 'reads %r: child received %r, expected %r' % ([r[:20] for r in reads][:4], got[:40], want_in[:40]))
     if escaped and out['forced']:
         return ('interact/no-return-on-escape', 'the escape character was typed but interact() did not return')
+    if case.get('handover') and case.get('logs'):
+        lr = out['logs'].get('read', '')
+        if lr != case['handover_log']:
+            return ('interact/handover-log', 'a character cut at the hand-over from expect() to interact(): logfile_read got %r during interact(), expected %r' % (lr, case['handover_log']))
     if not out['mode_restored']:
         return ('interact/mode-not-restored', 'terminal attributes after interact() differ from those before')
     if (burst or any(st[0] == 'quit' for st in case['steps'])) and out['wall'] > case.get('limit', 6.0):
@@ -438,6 +459,9 @@ CORPUS = [
     dict(steps=[T(b'ab\x1dcd', 5), T(b'Qz')], fin='drop29', esc='Q'),
     # an output filter that empties a whole read (a lone BEL) must not end the session
     dict(steps=[S_(b'one'), S_(b'\x07'), S_(b'two'), T(b'k', 1), S_(b'\x07\x07'), S_(b'three'), T(ESC)], fout='drop7', esc=chr(29)),
+    # the stream is handed from expect() to interact() in the middle of a multi-byte character (log files are text in unicode mode)
+    dict(steps=[S_(b'\xa9!'), T(ESC)], esc=chr(29), encoding='utf-8', logs=True, handover=(b'caf\xc3'.hex(), 'caf'), handover_log='\u00e9!'),
+    dict(steps=[S_(b'\x82\xac ok'), T(ESC)], esc=chr(29), encoding='utf-8', logs=True, poll=True, handover=(b'x\xe2'.hex(), 'x'), handover_log='\u20ac ok'),
     # bursts larger than one read
     dict(steps=[T(bytes(range(32, 127)) * 30, 95 * 30), T(ESC)], esc=chr(29)),
     dict(steps=[S_(bytes(range(256)) * 12), T(ESC)], esc=chr(29)),
